@@ -71,10 +71,17 @@ func TestVerifDriverC01(t *testing.T) {
 		timex.VerifSetNow(time.Hour)
 		defer timex.VerifClockOff()
 		n++
-		method := fmt.Sprintf("/verif.c01/server-%d", n)
+		// calls may name one of several methods by a third element: services sharing a method base name, and a user
+		// Watch next to a health-style Watch (service AND base name unique per case: the registry is process-wide)
+		methods := []string{fmt.Sprintf("/verif%d.Ledger/Get%d", n, n), fmt.Sprintf("/verif%d.Profile/Get%d", n, n),
+			fmt.Sprintf("/verif%d.User/Watch%d", n, n), fmt.Sprintf("/verif%d.health.v1.Health/Watch%d", n, n)}
 		reached, dropped, escaped := 0, 0, 0
 		rej := make([]int64, 0, len(c.Calls))
 		for _, call := range c.Calls {
+			method := methods[0]
+			if len(call) > 2 {
+				method = methods[call[2]]
+			}
 			ctx, cancel := verifC01Ctx(call[0])
 			before := reached
 			var err error
